@@ -627,6 +627,12 @@ func (s *simDS) Get(_ context.Context, key datastore.Key) ([]byte, error) {
 	if s.closed {
 		return nil, errDSClosed
 	}
+	if w.DiskFault != nil {
+		if err := w.DiskFault(s.inc.Node, s.kind+"-get", s.space, key.String()); err != nil {
+			w.stat("disk-error")
+			return nil, err
+		}
+	}
 	v, ok := s.m()[key.String()]
 	if !ok {
 		return nil, datastore.ErrNotFound
